@@ -208,7 +208,7 @@ pub fn generate(ctx: &mut Ctx) {
         }
         bi += 1;
     }
-    let n = ctx.by_tier(200_000u64, 2_000_000u64) / ctx.nshards;
+    let n = ctx.by_tier(200_000u64, 20_000_000u64) / ctx.nshards;
     for i in 0..n {
         let mut rng = ctx.rng("data", i);
         let o = gen::Opts::new(false);
